@@ -251,7 +251,7 @@ func verifC13Padding() {
 		m.Additional = []RR{{Type: 41, Class: 4096, Data: []Option{{Code: 5, Data: []byte{1, 2}}}}}
 	case 3:
 		keep = []Option{{Code: 5, Data: []byte{9}}}
-		m.Additional = []RR{{Type: 41, Class: 4096, Data: []Option{{Code: 12, Data: make([]byte, vInt(0, 3))}, {Code: 5, Data: []byte{9}}}}}
+		m.Additional = []RR{{Type: 41, Class: 4096, Data: []Option{{Code: 12, Data: make([]byte, vInt(0, 3))}, {Code: 5, Data: []byte{9}}, {Code: 12, Data: []byte{0}}}}} // two stale padding options
 	case 4: // the OPT record is not the first additional record
 		keep = []Option{{Code: 10, Data: []byte{7, 7}}}
 		m.Additional = []RR{{Name: "x", Type: 1, Class: 1, TTL: 5, Data: net.IP{10, 0, 0, 1}}, {Type: 41, Class: 1232, Data: []Option{{Code: 10, Data: []byte{7, 7}}}}}
@@ -295,6 +295,26 @@ func verifC13Padding() {
 		}
 	}
 	vAssert(nOpt == 1, "exactly one OPT record")
+	for _, rr := range d.Additional {
+		opts, ok := rr.Data.([]Option)
+		if !ok {
+			continue
+		}
+		vAssert(rr.Name == "" && rr.Type == 41, "the OPT record is owned by the root name")
+		if shape == 0 {
+			vAssert(rr.TTL == 0 && rr.Class >= 512, "a synthesised OPT record: version 0, no flags, a usable payload size")
+		}
+		for _, o := range opts {
+			if o.Code == 12 {
+				vAssert(len(o.Data) <= 127, "no more padding than needed")
+				for _, x := range o.Data {
+					vAssert(x == 0, "padding bytes are zero (RFC 7830)")
+				}
+			}
+		}
+	}
+	m.AddPadding()
+	vAssert(vEqBytes(m.Bytes(), b), "padding an already padded message changes nothing")
 	if shape == 4 {
 		vAssert(len(d.Additional) == 2 && d.Additional[0].Type == 1, "other additional records are kept, in place")
 	}
@@ -624,6 +644,16 @@ func verifC13Exact() {
 			m.Additional = []RR{rr}
 		}
 	}
+	if !withQ && vBool() {
+		// every section populated, two questions: sections keep their order
+		m.Question = []Question{{Name: "q1.example", Type: 1, Class: 1}, {Name: "q2.example", Type: 28, Class: 1}}
+		m.Answer = []RR{{Name: "a.example", Type: 5, Class: 1, TTL: 1, Data: "c.example"}}
+		m.Authority = []RR{{Name: "example", Type: 2, Class: 1, TTL: 2, Data: "ns.example"}}
+		m.Additional = []RR{{Name: "ns.example", Type: 1, Class: 1, TTL: 3, Data: net.IP{10, 0, 0, 1}}, {Type: 41, Class: 4096, Data: []Option{{Code: 10, Data: []byte{1}}}}}
+		d, err := DecodeMessage(m.Bytes())
+		vAssert(err == nil && len(d.Question) == 2 && len(d.Answer) == 1 && len(d.Authority) == 1 && len(d.Additional) == 2 &&
+			d.Answer[0].Type == 5 && d.Authority[0].Type == 2 && d.Additional[0].Type == 1 && d.Additional[1].Type == 41 && d.Question[1].Name == "q2.example", "a message with every section populated round-trips section by section")
+	}
 	got := m.Bytes()
 	want := vRefMessage(m)
 	vAssert(len(got) == len(want), "encoded length equals the reference encoding's (no missing or stray bytes)")
@@ -642,7 +672,7 @@ func verifC13RefEncode() {
 	qname := vName(2)
 	vAssume(len(qname) > 0)
 	f1, f2 := vByte(), vByte()
-	f2 &^= 0x70 // the Z bits are reserved
+	// (the reserved Z / AD / CD bits of real answers may be set: they must not disturb RA and RCODE)
 	kind := vInt(0, 6)
 	hdr := []byte{0x12, 0x34, f1, f2, 0, 1, 0, 1, 0, 0, 0, 0}
 	if kind == 6 {
